@@ -528,6 +528,150 @@ example :
     softmaxOK X.ops (scaledOf X.ops xParams L1) (softmaxVals X.ops (scaledOf X.ops xParams L1)) = true := by
   decide
 
+/-! ### the grammar path -/
+
+theorem maskFrom_get (o : Ops α) (acc : List Nat) : ∀ (logits : List α) (i j : Nat) (v : α),
+    (maskFrom o acc i logits)[j]? = some v →
+    ∃ w, logits[j]? = some w ∧ v = (if acc.contains (i + j) then w else o.negInf) := by
+  intro logits
+  induction logits with
+  | nil => intro i j v h; simp [maskFrom] at h
+  | cons w ws ih =>
+    intro i j v h
+    cases j with
+    | zero =>
+      simp only [maskFrom, List.getElem?_cons_zero, Option.some.injEq] at h
+      exact ⟨w, rfl, by simpa using h.symm⟩
+    | succ j =>
+      simp only [maskFrom, List.getElem?_cons_succ] at h
+      obtain ⟨w', hw, hv⟩ := ih (i + 1) j v h
+      refine ⟨w', by simpa using hw, ?_⟩
+      rw [hv]
+      have e : i + 1 + j = i + (j + 1) := by omega
+      rw [e]
+
+/-- the masked logits: an accepted id keeps its logit, a rejected id gets `-Inf` -/
+theorem maskLogits_get (o : Ops α) (acc : List Nat) (logits : List α) (j : Nat) (v : α)
+    (h : (maskLogits o acc logits)[j]? = some v) :
+    ∃ w, logits[j]? = some w ∧ v = (if acc.contains j then w else o.negInf) := by
+  obtain ⟨w, hw, hv⟩ := maskFrom_get o acc logits 0 j v h
+  exact ⟨w, hw, by simpa using hv⟩
+
+/-- **what a grammar-constrained call returns.**  Either the first pick — then it is accepted by
+    the grammar and it is the result of the plain `Sample` on the original logits — or the result of
+    `Sample` on a fresh token list built from the ORIGINAL logits with the grammar mask applied
+    (`maskLogits`), drawn with a new random number.  Every theorem about `Sample` (index in range,
+    not `-Inf`, membership in the filter set, argmax, no panic) therefore applies to the retry with
+    the masked logits in the place of the logits. -/
+theorem grammar_step_spec (o : Ops α) (toF : Nat → α) (fix : Bool) (P : Params α) (p : Pcg)
+    (logits : List α) (acc : List Nat) (id : Nat)
+    (h : (sampleStepG o toF fix P p logits acc).1 = .ok id) :
+    (acc.contains id = true ∧ ∃ r, Sample o fix P r logits = .ok id) ∨
+    (∃ r, Sample o fix P r (maskLogits o acc logits) = .ok id) := by
+  cases logits with
+  | nil => simp [sampleStepG] at h
+  | cons v vs =>
+    simp only [sampleStepG] at h
+    generalize hr1 : (if consumes o fix P (v :: vs) = true then toF (pcgFloat24 p).1 else toF 0) = r1 at h
+    cases hc : sampleCore o fix P r1 (mkTokens (v :: vs)) with
+    | error e => rw [hc] at h; simp at h
+    | ok t =>
+      rw [hc] at h
+      simp only at h
+      split at h
+      · rename_i hacc
+        simp only [Bool.and_eq_true] at hacc
+        simp only at h
+        injection h with h
+        left
+        refine ⟨by rw [← h]; exact hacc.1, r1, ?_⟩
+        simp only [Sample, hc, Except.map, h]
+      · right
+        simp only at h
+        unfold sampleStep at h
+        split at h
+        · exact ⟨_, h⟩
+        · exact ⟨_, h⟩
+
+/-- a retry result whose masked logit is not `-Inf` is accepted by the grammar -/
+theorem masked_not_neginf_accepted (o : Ops α) (hrefl : o.beq o.negInf o.negInf = true)
+    (acc : List Nat) (logits : List α) (id : Nat) (v : α)
+    (hv : (maskLogits o acc logits)[id]? = some v) (hne : o.beq v o.negInf = false) :
+    acc.contains id = true := by
+  obtain ⟨w, _, hvw⟩ := maskLogits_get o acc logits id v hv
+  cases hc : acc.contains id with
+  | true => rfl
+  | false =>
+    rw [hc] at hvw
+    simp only [Bool.false_eq_true, if_false] at hvw
+    rw [hvw, hrefl] at hne; cases hne
+
+/-- **grammar, temperature > 0, pinned variant**: under the contracts of the run on the masked
+    logits, the retry result is accepted by the grammar, indexes a masked (= original) logit that
+    is not `-Inf`, and lies in the filter set of the masked logits -/
+theorem grammar_retry_admissible_partial {o : Ops α} (laws : Laws o)
+    (hrefl : o.beq o.negInf o.negInf = true) (P : Params α) (r : α)
+    (logits : List α) (acc : List Nat) (id : Nat) (ht : o.beq P.temp o.zero = false)
+    (hS : Sample o false P r (maskLogits o acc logits) = .ok id)
+    (hg : guardOK o (scaledOf o P (topK o P.topK (mkTokens (maskLogits o acc logits)))) = true)
+    (hsc : scaleOK o ((topK o P.topK (mkTokens (maskLogits o acc logits))).map (·.val))
+              (scaledOf o P (topK o P.topK (mkTokens (maskLogits o acc logits)))) = true)
+    (hsm : softmaxOK o (scaledOf o P (topK o P.topK (mkTokens (maskLogits o acc logits))))
+              (softmaxVals o (scaledOf o P (topK o P.topK (mkTokens (maskLogits o acc logits))))) = true) :
+    acc.contains id = true ∧
+    (∃ w, logits[id]? = some w ∧ o.beq w o.negInf = false) ∧
+    ∃ f, minP o P.minP (topP o P.topP (probsOf o P (topK o P.topK (mkTokens (maskLogits o acc logits))))) = .ok f ∧
+      ∃ x ∈ f, x.id = id := by
+  obtain ⟨v, hv, hne⟩ := never_neg_inf laws P r _ id ht hS hg hsc hsm
+  have hacc := masked_not_neginf_accepted o hrefl acc logits id v hv hne
+  obtain ⟨w, hw, hvw⟩ := maskLogits_get o acc logits id v hv
+  rw [hacc] at hvw
+  simp only [if_true] at hvw
+  exact ⟨hacc, ⟨w, hw, by rw [← hvw]; exact hne⟩,
+    result_mem_filters laws P r _ id ht hS hg hsc hsm⟩
+
+/-- **grammar, temperature 0**: the retry returns an arg-max of the masked logits, and it is
+    accepted by the grammar as soon as some masked logit is above `-Inf` -/
+theorem grammar_retry_greedy {o : Ops α} (h : OrdLaws o) (fix : Bool) (P : Params α) (r : α)
+    (logits : List α) (acc : List Nat) (id : Nat) (ht : o.beq P.temp o.zero = true)
+    (hS : Sample o fix P r (maskLogits o acc logits) = .ok id)
+    (hsome : ∃ w ∈ maskLogits o acc logits, o.lt o.negInf w = true) :
+    acc.contains id = true ∧
+    ∃ v, (maskLogits o acc logits)[id]? = some v ∧ ∀ w ∈ maskLogits o acc logits, o.lt v w = false := by
+  obtain ⟨v, hv, hmax⟩ := greedy_argmax h fix P r _ id ht hS
+  refine ⟨?_, v, hv, hmax⟩
+  obtain ⟨w0, _, hvw⟩ := maskLogits_get o acc logits id v hv
+  cases hc : acc.contains id with
+  | true => rfl
+  | false =>
+    rw [hc] at hvw
+    simp only [Bool.false_eq_true, if_false] at hvw
+    obtain ⟨w, hw, hlt⟩ := hsome
+    have := hmax w hw
+    rw [hvw, hlt] at this; cases this
+
+/-- the same for the repaired variant that /repo runs -/
+theorem grammar_retry_admissible_fixed_partial {o : Ops α} (laws : Laws o)
+    (hrefl : o.beq o.negInf o.negInf = true) (P : Params α) (r : α)
+    (logits : List α) (acc : List Nat) (id : Nat) (ht : o.beq P.temp o.zero = false)
+    (hS : Sample o true P r (maskLogits o acc logits) = .ok id) :
+    ∃ L1, shiftMax o (topK o P.topK (mkTokens (maskLogits o acc logits))) = .ok L1 ∧
+    (guardOK o (scaledOf o P L1) = true →
+     scaleOK o ((topK o P.topK (mkTokens (maskLogits o acc logits))).map (·.val)) (L1.map (·.val)) = true →
+     scaleOK o (L1.map (·.val)) (scaledOf o P L1) = true →
+     softmaxOK o (scaledOf o P L1) (softmaxVals o (scaledOf o P L1)) = true →
+     acc.contains id = true ∧
+     (∃ w, logits[id]? = some w ∧ o.beq w o.negInf = false) ∧
+     ∃ f, minP o P.minP (topP o P.topP (probsOf o P L1)) = .ok f ∧ ∃ x ∈ f, x.id = id) := by
+  obtain ⟨L1, hs, hrest⟩ := sample_admissible_fixed_partial laws P r _ id ht hS
+  refine ⟨L1, hs, ?_⟩
+  intro hg hsh hsc hsm
+  obtain ⟨v, idx, f, x, hv, hne, hf, _, hx, hxid⟩ := hrest hg hsh hsc hsm
+  have hacc := masked_not_neginf_accepted o hrefl acc logits id v hv hne
+  obtain ⟨w, hw, hvw⟩ := maskLogits_get o acc logits id v hv
+  rw [hacc] at hvw
+  simp only [if_true] at hvw
+  exact ⟨hacc, ⟨w, hw, by rw [← hvw]; exact hne⟩, f, hf, x, List.mem_of_getElem? hx, hxid⟩
 /-! ### the laws are satisfiable -/
 
 /-- the laws are satisfiable: the integers with their usual order and arithmetic -/
